@@ -32,7 +32,9 @@ func ln(fn, file string, line int64) ap.Line {
 	return ap.Line{Func: fn, File: file, Line: line, Start: 1}
 }
 
-func loc(m int, addr uint64, lines ...ap.Line) ap.Loc { return ap.Loc{Map: m, Addr: addr, Lines: lines} }
+func loc(m int, addr uint64, lines ...ap.Line) ap.Loc {
+	return ap.Loc{Map: m, Addr: addr, Lines: lines}
+}
 
 func base() *ap.AP {
 	return &ap.AP{Types: []ap.VT{{Type: "n", Unit: "count"}, {Type: "v", Unit: "count"}}, Maps: enum.Maps2,
